@@ -119,12 +119,71 @@ pub fn method_name(m: &AMQPClass) -> String {
     format!("{}.{}", class, method)
 }
 
+/// amq-protocol 1.4.0's *parser* loses every bit flag whose AMQP name contains a
+/// hyphen (it parses "if-unused" but looks up "if_unused"): no-ack, no-local,
+/// auto-delete, if-unused, if-empty always decode as false. Its generator is
+/// fine. The affected client methods get those flags from the raw flag octet,
+/// located here by hand (bit i = i-th flag in declaration order).
+fn fix_hyphenated_flags(m: &mut AMQPClass, payload: &[u8]) {
+    use amq_protocol::protocol::basic::AMQPMethod as B;
+    use amq_protocol::protocol::exchange::AMQPMethod as Ex;
+    use amq_protocol::protocol::queue::AMQPMethod as Q;
+    // class(2) method(2) ticket(2) then `nstr` short strings, then the flag octet
+    let flags_after = |nstr: usize| -> Option<u8> {
+        let mut pos = 6;
+        for _ in 0..nstr {
+            let l = *payload.get(pos)? as usize;
+            pos += 1 + l;
+        }
+        payload.get(pos).copied()
+    };
+    let bit = |f: u8, i: u8| f & (1 << i) != 0;
+    match m {
+        AMQPClass::Queue(Q::Declare(d)) => {
+            if let Some(f) = flags_after(1) {
+                d.auto_delete = bit(f, 3);
+            }
+        }
+        AMQPClass::Queue(Q::Delete(d)) => {
+            if let Some(f) = flags_after(1) {
+                d.if_unused = bit(f, 0);
+                d.if_empty = bit(f, 1);
+            }
+        }
+        AMQPClass::Exchange(Ex::Declare(d)) => {
+            if let Some(f) = flags_after(2) {
+                d.auto_delete = bit(f, 2);
+            }
+        }
+        AMQPClass::Exchange(Ex::Delete(d)) => {
+            if let Some(f) = flags_after(1) {
+                d.if_unused = bit(f, 0);
+            }
+        }
+        AMQPClass::Basic(B::Consume(c)) => {
+            if let Some(f) = flags_after(2) {
+                c.no_local = bit(f, 0);
+                c.no_ack = bit(f, 1);
+            }
+        }
+        AMQPClass::Basic(B::Get(g)) => {
+            if let Some(f) = flags_after(1) {
+                g.no_ack = bit(f, 0);
+            }
+        }
+        _ => {}
+    }
+}
+
 pub fn decode_frame(bytes: &[u8], off: usize) -> WFrame {
     let ty = bytes[0];
     let ch = u16::from_be_bytes([bytes[1], bytes[2]]);
     let dec = match parse_frame(bytes) {
         Ok((rest, f)) if rest.is_empty() => match f {
-            AMQPFrame::Method(_, m) => Decoded::Method(m),
+            AMQPFrame::Method(_, mut m) => {
+                fix_hyphenated_flags(&mut m, &bytes[7..bytes.len() - 1]);
+                Decoded::Method(m)
+            }
             AMQPFrame::Header(_, _, h) => Decoded::Header(*h),
             AMQPFrame::Body(_, b) => Decoded::Body(b),
             AMQPFrame::Heartbeat(_) => Decoded::Heartbeat,
